@@ -16,7 +16,7 @@ RULE = ('A formula from the typed grammar and two printings of it: canonical (ke
         'dropped ";" / assertion head, and minimal parentheses computed from the precedence table transcribed from the grammar file '
         '(binary operators left-associative, prefix operands extend over tighter binary operators). Lanes: discrete offline (all '
         'operators), discrete online (past operators), unless[a,b] versus its documented expansion, LTL front end on untimed formulas '
-        '(offline and pastified online) versus the STL front end. Oracle: identical results (a variant that raises where the canonical '
+        '(offline and pastified online) versus the STL front end. Lane embedded: the variant is the requirement of a text that declares its variables itself (input/output float v, with or without an initialising literal or expression, one declaration per line or all on one line) instead of through the API. Oracle: identical results (a variant that raises where the canonical '
         'text evaluates is a difference). Non-trivial = the variant differs from the canonical text in >= 2 token kinds or parentheses '
         'were dropped, and the result is not constant; distinct = distinct (canonical text, variant text, trace) digests.')
 
@@ -82,6 +82,36 @@ def unless_cases(draw, tier):
             'unit': draw(st.sampled_from(['s', 's', 'ms', 'us'])), 'choices': draw(st.lists(st.integers(0, 11), min_size=8, max_size=8))}
 
 
+INITS = ('', '', ' = 0', ' = 1.5', ' = (%s)', ' = %s', ' = %s + 1', ' = - %s', ' = abs(%s)', ' = %s * 2')
+
+
+@st.composite
+def embedded_cases(draw, tier):
+    """The variant is the requirement of a specification text that declares its variables in the text: 'input float x',
+    'float y = 0', 'float y = (x)' (the initialising literal or expression has no effect on monitoring), each declaration on
+    its own line or all on one; the requirement follows with or without its head."""
+    c = draw(cases(tier, draw(st.sampled_from(['dt_off', 'dt_off', 'dt_on']))))
+    c['prologue'] = {'io': draw(st.lists(st.sampled_from(['', '', 'input ', 'output ']), min_size=4, max_size=4)),
+                     'init': draw(st.lists(st.integers(0, len(INITS) - 1), min_size=4, max_size=4)),
+                     'other': draw(st.lists(st.integers(0, 3), min_size=4, max_size=4)),
+                     'sep': draw(st.sampled_from(['\n', '\n', ' ', '\n\n', ' // declared here\n'])),
+                     'order': draw(st.integers(0, 5))}
+    return c
+
+
+def prologue_text(pro, feed):
+    names = list(feed)
+    k = pro['order'] % max(1, len(names))
+    names = names[k:] + names[:k]
+    out = []
+    for i, v in enumerate(names):
+        init = INITS[pro['init'][i % 4]]
+        if '%s' in init:
+            init = init % names[pro['other'][i % 4] % len(names)]
+        out.append('%sfloat %s%s' % (pro['io'][i % 4], v, init))
+    return pro['sep'].join(out) + ('\n' if pro['sep'] != ' ' else ' ')
+
+
 def ltl_spec(online):
     from rtamt.spec.abstract_specification import AbstractOfflineSpecification, AbstractOnlineSpecification
     from rtamt.syntax.ast.parser.ltl.specification_parser import LtlAst
@@ -112,12 +142,12 @@ def run_ltl(text, vs, tr, online):
         return exc_outcome(e)
 
 
-def run_kind(kind, text, vs, tr):
+def run_kind(kind, text, vs, tr, **cfg):
     if kind == 'dt_off':
-        o = run_dt_off(text, vs, tr)
+        o = run_dt_off(text, vs, tr, **cfg)
         return ('ok', [p[1] for p in o[1]]) if o[0] == 'ok' else o
     if kind == 'dt_on':
-        return run_dt_on(text, vs, tr)
+        return run_dt_on(text, vs, tr, **cfg)
     raise ValueError(kind)
 
 
@@ -171,11 +201,17 @@ def check(case):
             return bad
         return PASS(F.n_temporal(f) >= 1 and len(set(o_stl[1])) > 1, labels)
     var = spec_text(f, Tape(case['tape']))
+    cfg = {}
+    if case.get('prologue') is not None:
+        # the variant stands in a specification text that declares its variables itself (not through the API)
+        var = prologue_text(case['prologue'], feed) + var
+        cfg = dict(declare=False)
+        labels.append('declarations-in-text')
     acc, _t, illegal = lang.accepts(var)
     if not acc or illegal:
         return DISCARD('HARNESS:variant-not-derivable', labels)
     oc = run_kind(kind, canon, feed, w)
-    ov = run_kind(kind, var, feed, w)
+    ov = run_kind(kind, var, feed, w, **cfg)
     bad = compare(labels, canon, var, oc, ov, w, 'spelling (%s)' % kind)
     if bad:
         return bad
@@ -246,6 +282,7 @@ def cand_unless(case):
 
 
 LANES = [
+    Lane('embedded', lambda tier: embedded_cases(tier), check, 2000, 30000, candidates),
     Lane('lookalike', lambda tier: lookalike_cases(tier), check, 1200, 15000, candidates),
     Lane('dt_off', lambda tier: cases(tier, 'dt_off'), check, 4000, 60000, candidates),
     Lane('dt_on', lambda tier: cases(tier, 'dt_on'), check, 2000, 30000, candidates),
